@@ -367,3 +367,65 @@ func Harness_C20_closeVsFeedStartSameHandle() {
 	verifJoin()
 	le.afterShutdown("close vs feed start")
 }
+
+// C16: a multi-collection feed (Bucket.StartDCPFeed with Scopes) delivers each collection's
+// mutations with that collection's id and closes its done channel once, after every
+// per-collection feed has ended.
+func Harness_C16_multiCollection() {
+	le := lifeBegin(true)
+	ctx := context.Background()
+	done := make(chan struct{})
+	term := make(chan bool)
+	var got []uint32
+	args := sgbucket.FeedArguments{ID: "m", Backfill: sgbucket.FeedNoBackfill, Terminator: term, DoneChan: done,
+		Scopes: map[string][]string{"_default": {"_default"}, "sc": {"c1"}}}
+	err := le.h2.StartDCPFeed(ctx, args, func(ev sgbucket.FeedEvent) bool { got = append(got, ev.CollectionID); return true }, nil)
+	verifAssert(err == nil, "multi-collection feed starts")
+	verifAssert(le.c1.SetRaw("k1", 0, nil, []byte("v")) == nil, "write to the default collection succeeds")
+	verifAssert(le.o1.SetRaw("k2", 0, nil, []byte("v")) == nil, "write to the named collection succeeds")
+	verifJoin()
+	verifAssert(len(got) == 2, "one event per mutation of each requested collection")
+	if len(got) == 2 {
+		verifAssert(verifOr(verifAnd(got[0] == le.c1.GetCollectionID(), got[1] == le.o1.GetCollectionID()), verifAnd(got[1] == le.c1.GetCollectionID(), got[0] == le.o1.GetCollectionID())),
+			"each event carries the id of the collection it belongs to")
+	}
+	verifAssert(!verifDoneClosed(done), "the feed is still running")
+	close(term)
+	verifJoin()
+	verifAssert(verifDoneClosed(done), "the coalesced done channel is closed once every per-collection feed has ended")
+	n := len(got)
+	verifAssert(le.c1.SetRaw("k3", 0, nil, []byte("v")) == nil, "write succeeds")
+	verifJoin()
+	verifAssert(len(got) == n, "a terminated feed's callback is not invoked again")
+	verifAssert(verifLiveThreads() == 0, "no feed goroutine is left")
+	// unknown collection is refused
+	bad := sgbucket.FeedArguments{ID: "x", Backfill: sgbucket.FeedNoBackfill, Scopes: map[string][]string{"sc": {"nope"}}}
+	verifAssert(le.h2.StartDCPFeed(ctx, bad, func(sgbucket.FeedEvent) bool { return true }, nil) != nil, "a feed on an unknown collection is refused")
+	verifReach("done")
+}
+
+// C11: dropping a collection removes exactly its own documents and feeds; re-creating it yields an empty collection.
+func Harness_C11_dropRecreate() {
+	le := lifeBegin(true)
+	name := sgbucket.DataStoreNameImpl{Scope: "sc", Collection: "c1"}
+	verifAssert(le.c1.SetRaw("k", 0, nil, []byte("default")) == nil, "write succeeds")
+	verifAssert(le.o1.SetRaw("k", 0, nil, []byte("named")) == nil, "write succeeds")
+	done := make(chan struct{})
+	verifAssert(le.o1.StartDCPFeed(context.Background(), sgbucket.FeedArguments{ID: "o", Backfill: sgbucket.FeedNoBackfill, DoneChan: done}, func(sgbucket.FeedEvent) bool { return true }, nil) == nil, "feed starts")
+	verifJoin()
+	verifAssert(le.h1.DropDataStore(name) == nil, "drop succeeds")
+	verifJoin()
+	verifAssert(verifDoneClosed(done), "dropping a collection ends its feeds")
+	v, _, err := le.c2.GetRaw("k")
+	verifAssert(verifAnd(err == nil, string(v) == "default"), "the same key in another collection is untouched by the drop")
+	ds, err := le.h2.NamedDataStore(name)
+	verifAssert(err == nil, "the collection can be re-created")
+	if err == nil {
+		_, _, err = ds.(*Collection).GetRaw("k")
+		verifAssert(isMissing(err), "a re-created collection is empty")
+		verifAssert(ds.(*Collection).SetRaw("k", 0, nil, []byte("again")) == nil, "and usable")
+	}
+	v, _, err = le.c1.GetRaw("k")
+	verifAssert(verifAnd(err == nil, string(v) == "default"), "the other collection is still intact")
+	verifReach("done")
+}
